@@ -67,13 +67,16 @@ MaxDS(shape, n, ds0) == CASE shape = "globals" -> ds0 + 2 * n + 1
                           [] shape = "refused-then-continue" -> ds0 + n + 12
                           [] shape = "longjump" -> ds0 + 12
                           [] shape \in {"deepfor", "widefor"} -> ds0 + 4 * n + 12
+                          [] shape = "manyparams" -> ds0 + 12
 MaxLocal(shape, n) == IF shape = "locals" THEN n - 1 ELSE IF shape = "refused-then-continue" THEN n ELSE IF shape = "jump" THEN 0 ELSE -1
+\* parameters that are never read need no operand address; only the function value's 16-bit count fields bound them (FunAdmit)
 MaxJump(shape, n) == IF shape \in {"locals", "jump", "refused-then-continue", "longjump"} THEN n + 2 ELSE 2
 \* What the property demands does not depend on how economically a compiler uses the address space: a script needing at most
 \* half of every limit under this accounting must work; one whose number of distinct locals cannot be addressed at all must be
 \* refused; in between (and wherever a more economical compiler could fit the script) either outcome is right, provided an
 \* accepted script computes the right values.  Overflows is the accounting of the current compiler, reported for information.
-MustWork(shape, n, ds0) == 2 * MaxDS(shape, n, ds0) < W \div 2 /\ 2 * MaxLocal(shape, n) < W \div 2 /\ 2 * MaxJump(shape, n) < W \div 2
+MaxCount(shape, n) == IF shape = "manyparams" THEN n ELSE 0     \* what the function value's 16-bit count fields must hold
+MustWork(shape, n, ds0) == 2 * MaxDS(shape, n, ds0) < W \div 2 /\ 2 * MaxLocal(shape, n) < W \div 2 /\ 2 * MaxJump(shape, n) < W \div 2 /\ 2 * MaxCount(shape, n) < W
 MustRefuse(shape, n, ds0) == MaxLocal(shape, n) >= W \div 2
-Overflows(shape, n, ds0) == MaxDS(shape, n, ds0) - 4 >= W \div 2 \/ MaxLocal(shape, n) >= W \div 2 \/ MaxJump(shape, n) - 4 >= W \div 2
+Overflows(shape, n, ds0) == MaxDS(shape, n, ds0) - 4 >= W \div 2 \/ MaxLocal(shape, n) >= W \div 2 \/ MaxJump(shape, n) - 4 >= W \div 2 \/ MaxCount(shape, n) >= W
 =============================================================================
